@@ -63,6 +63,14 @@ class G:
                 return {"k": "attr", "e": {"k": "id", "n": n}, "n": r.choice(cls[1])}
         return {"k": "int", "v": r.randint(0, 9)}
 
+    def plain_int(self, env, d):
+        """integer expression over variables and literals only (embedded in string interpolations)"""
+        r = self.r
+        ints = [n for n, t in env if t == "int"]
+        if d <= 0 or r.random() < 0.4:
+            return {"k": "id", "n": r.choice(ints)} if ints and r.random() < 0.6 else {"k": "int", "v": r.randint(0, 6)}
+        return {"k": "bin", "op": r.choice(["+", "-", "*"]), "l": self.plain_int(env, d - 1), "r": self.plain_int(env, d - 1)}
+
     def bool_expr(self, env, d):
         r = self.r
         bools = [n for n, t in env if t == "bool"]
@@ -95,8 +103,18 @@ class G:
             return {"k": "str", "v": r.choice(["", "a", "b", "xy", "q"])}
         if c < 0.7:
             return {"k": "bin", "op": "+", "l": self.str_expr(env, d - 1), "r": self.str_expr(env, d - 1)}
-        if c < 0.9:
+        if c < 0.82:
             return {"k": "call", "f": "to_string", "a": [self.int_expr(env, d - 1) if r.random() < 0.7 else self.bool_expr(env, d - 1)]}
+        if c < 0.9:
+            # "text ${expr} text": only integer expressions without calls inside (no quotes, braces or side effects in the embedded text)
+            parts = []
+            for _ in range(r.randint(1, 3)):
+                if r.random() < 0.5:
+                    parts.append({"k": "txt", "v": r.choice(["a", "x=", " ", "b:"])})
+                parts.append({"k": "ex", "e": self.plain_int(env, 1)})
+            if r.random() < 0.5:
+                parts.append({"k": "txt", "v": r.choice(["!", " end"])})
+            return {"k": "interp", "parts": parts}
         return {"k": "tern", "c": self.bool_expr(env, d - 1), "t": self.str_expr(env, d - 1), "f": self.str_expr(env, d - 1)}
 
     def any_printable(self, env, d):
@@ -399,6 +417,8 @@ def pe(e):
         return f"(-{pe(e['e'])})"
     if k == "tern":
         return f"({pe(e['c'])} ? {pe(e['t'])} : {pe(e['f'])})"
+    if k == "interp":
+        return '"' + "".join(x["v"] if x["k"] == "txt" else "${" + pe(x["e"]) + "}" for x in e["parts"]) + '"'
     if k == "call":
         return f"{mark(e)}{e['f']}({LAYOUT['comma'].join(pe(a) for a in e['a'])})"
     if k == "lambda":
